@@ -9,7 +9,9 @@ static inline iora_blob blobFromEntry(iora_entry e, iora_sv path) { (void)path; 
 typedef struct { iora_path root; iora_path templatesRoot; iora_path staticsRoot; bool perRequestRead; int mutex; iora_scache staticCache; iora_tcache templateCache; } FsState;
 typedef struct { iora_strobj bytes; } EmbeddedTemplate;        /* registry entry: bytes compiled into the binary */
 #define IORA_EMBEDDED_BYTES(v) (&(v))
-typedef struct { Mode _mode; const void *_registry; FsState *_fs; } Assets;
+typedef struct { iora_sv externalDir; } EmbeddedAssetRegistry;
+typedef struct { int id; } EmbeddedAsset;
+typedef struct { Mode _mode; const EmbeddedAssetRegistry *_registry; FsState *_fs; } Assets;
 
 /* callees that are not extracted into this unit: body-less, replaced by their contracts (post.c) */
 iora_optstr Assets_readFile(const iora_path *p);
@@ -22,3 +24,9 @@ const EmbeddedTemplate *Assets_findTemplate(const Assets *self, iora_sv name);  
 #define IORA_LOOP_Assets_readFile_loop_1 IORA_LC( \
   __CPROVER_assigns(data, G_errno, G_file_pos, G_chunk_lo, G_chunk_n, G_read_calls, G_last_read, G_eintr_seen, G_short_seen) \
   __CPROVER_loop_invariant(data.n == G_file_pos && G_file_pos <= IORA_FILE_MAX && G_chunk_n == 0 && G_read_calls >= 0))
+
+/* embedded-mode helpers (registry lookups over compiled-in tables): not under contract */
+const EmbeddedAsset *Assets_findStatic(const Assets *self, iora_sv path);
+bool Assets_isExternalPath(const Assets *self, iora_sv path);
+StaticCacheEntry G_embedded_entry;                              /* stands for the compiled-in bytes of an embedded asset */
+static inline iora_blob embeddedBlob(EmbeddedAsset a, iora_sv path) { (void)a; (void)path; iora_blob b; b.entry = &G_embedded_entry; return b; }
